@@ -350,5 +350,4 @@ pub fn run(ctx: &mut Ctx, out_path: &str, n: usize, seed: u64) {
             }
         }
     }
-    let _ = std::fs::remove_file(&f.inflight);
 }
